@@ -977,8 +977,9 @@ func runCheck(mode string, args []string) {
 							mismatchNotes = append(mismatchNotes, fmt.Sprintf("%s inputs=%v: %s", p.vec.Entry, p.vec.Inputs, note))
 						}
 					}
-				} else if (p.ce.Kind == "deadlock" || p.ce.Kind == "leak") && len(p.ce.Pauses) == 0 && o.Crash != "" {
-					confirmed[p.ce] = "native run (no preemption needed): " + trunc(o.Crash, 400)
+				} else if (p.ce.Kind == "deadlock" || p.ce.Kind == "leak") && len(p.ce.Pauses) == 0 && (o.Crash != "" || o.Panic != "") {
+					// time is not modelled: code that gives up waiting after a timeout and panics shows up as a panic natively
+					confirmed[p.ce] = "native run (no preemption needed): " + trunc(o.Crash+o.Panic, 400)
 				} else if p.ce.Kind == "deadlock" || p.ce.Kind == "leak" {
 					why, ok, err := confirmBySchedule(targets[tn], ov, p.ce, p.vec)
 					if err != nil {
